@@ -80,6 +80,8 @@ def _vals(ch: core.Chooser, shape: tuple, kind: str, nonzero: bool = False) -> d
     dress = ch.below(3)
     if len(shape) >= 2 and ch.sub("layout").chance(0.15):
         dress = 3  # the same values held as a transposed (column-major) view
+    elif ch.sub("layout").chance(0.08):
+        dress = 4  # a polynomial whose storage is read-only (a view of a frozen array)
     return {"const": model.lit_array(numpy.array(data, dtype=dtype).reshape(shape), dtype), "dress": dress}
 
 
@@ -143,6 +145,9 @@ def g_binary(ch: core.Chooser, name: str) -> dict:
         # a plain Python number; "primer" is an equal number spelled differently that went through the same function earlier
         v, prim = ch.choice([(0.0, -0.0), (-0.0, 0.0), (1, 1.0), (1.0, 1), (2, 2.0), (True, 1), (0, 0.0), (3, 3.0)])
         b = {"pyscalar": v, "primer": prim if ch.chance(0.7) else None}
+    ca = ch.sub("alias")
+    if ca.chance(0.08) and name != "power" and (name not in ("divide", "true_divide", "floor_divide", "remainder", "divmod") or all(a["const"]["flat"])):
+        b = {"alias": 0}  # the very same object on both sides
     kw: Dict[str, Any] = {}
     if name in ("isclose", "allclose") and ch.chance(0.4):
         kw = {"rtol": ch.choice([1e-5, 0.3]), "atol": ch.choice([1e-8, 0.5])}
@@ -419,6 +424,10 @@ def _dress(arr: numpy.ndarray, dress: int) -> Any:
         return numpoly.polynomial(arr)
     if dress == 3:
         return numpoly.polynomial(numpy.ascontiguousarray(arr.T)).T
+    if dress == 4:
+        out = numpoly.polynomial(arr)
+        out.flags.writeable = False
+        return out
     if dress == 1:
         return numpoly.polynomial_from_attributes([[0, 0]], [arr], ("q0", "q3"), retain_names=True, retain_coefficients=True)
     return numpoly.polynomial_from_attributes([[0, 0], [1, 2]], [arr, numpy.zeros_like(arr)], ("q1", "q2"), retain_names=True, retain_coefficients=True)
@@ -433,6 +442,8 @@ def _build(v: Any, side: str) -> Any:
             return arr if side == "numpy" else _dress(arr, v.get("dress", 0))
         if "plain" in v:
             return model.build_array(v["plain"])
+        if "alias" in v:
+            return None  # filled in by the caller: the same object as another argument
         if "pyscalar" in v:
             return v["primer"] if side == "primer" and v.get("primer") is not None else v["pyscalar"]
         if "seq" in v:
@@ -441,6 +452,10 @@ def _build(v: Any, side: str) -> Any:
             return numpy.sum if side == "numpy" else numpoly.sum
         return model.build_value(v)
     return v
+
+
+def _alias(specs: list, built: list) -> list:
+    return [built[a["alias"]] if isinstance(a, dict) and "alias" in a else x for a, x in zip(specs, built)]
 
 
 def _to_numpy(res: Any) -> Any:
@@ -536,7 +551,7 @@ class Runner:
             return
         np_func = numpy.linalg.det if fn == "det" else getattr(numpy, fn)
         try:
-            np_args = [_build(a, "numpy") for a in step["args"]]
+            np_args = _alias(step["args"], [_build(a, "numpy") for a in step["args"]])
             kwargs = {k: _build(v, "numpy") for k, v in step["kwargs"].items()}
             with numpy.errstate(all="ignore"):
                 want = np_func(*np_args, **kwargs)
@@ -556,7 +571,7 @@ class Runner:
             with seams.Env(core.H(self.rs, pol, fill), sort=pol, fill=fill) as env:
                 env.begin_step(sid)
                 try:
-                    p_args = [_build(a, "numpoly") for a in step["args"]]
+                    p_args = _alias(step["args"], [_build(a, "numpoly") for a in step["args"]])
                     for a in p_args:
                         if isinstance(a, numpoly.ndpoly):
                             env.remember(a)
